@@ -53,7 +53,7 @@ def model_bw(rows) -> Dict[str, List[Tuple[int, int, float]]]:
     for r in rows:
         if r.stream != -1 and vocab.kernel_type(r.name) == vocab.MEMORY:
             out.setdefault(vocab.MEMCPY_CLASS[r.name], []).append(
-                (r.ts, r.ts + max(r.dur, 1), float(r.args.get("memory bandwidth (GB/s)", 0.0))))
+                (r.ts, r.ts + (r.dur if r.dur > 0 else 1), float(r.args.get("memory bandwidth (GB/s)", 0.0))))
     return out
 
 
@@ -70,7 +70,8 @@ def check(case: Dict[str, Any]) -> CaseInfo:
     with scratch_dir() as d:
         files = write_case(case, d)
         ta = load_analysis(files, d, mp=case.get("mp", False), prelude=case.get("prelude"))
-        min_ts = int(ta.t.min_ts)
+        num = float if case.get("unrounded") else int  # quarter-microsecond stamps stay exact in doubles
+        min_ts = num(ta.t.min_ts)
         req = p["ranks"]
         want_ranks = req if req else [0]
         q = hta_call("get_queue_length_time_series", lambda: ta.get_queue_length_time_series(ranks=req))
@@ -108,7 +109,7 @@ def check(case: Dict[str, Any]) -> CaseInfo:
                     prev_ts, val = None, 0
                     vals = []
                     for i, ts, ql in zip(ids, sub["ts"], sub["queue_length"]):
-                        ts, ql = int(ts), int(ql)
+                        ts, ql = num(ts), int(ql)
                         require(ts + min_ts == by_id[i].ts, "queue:row_timestamp", lambda: f"event {i}: {ts}+{min_ts} vs {by_id[i].ts}")
                         require(prev_ts is None or ts >= prev_ts, "queue:time_order", lambda: f"stream {stream}: {list(sub['ts'])}")
                         val += sign[i]
@@ -150,13 +151,13 @@ def check(case: Dict[str, Any]) -> CaseInfo:
                 for cls, copies in mb.items():
                     sub = df[df["name"] == cls]
                     want_ts = sorted([c[0] - min_ts for c in copies] + [c[1] - min_ts for c in copies])
-                    require([int(x) for x in sub["ts"]] == want_ts, "bw:rows",
+                    require([num(x) for x in sub["ts"]] == want_ts, "bw:rows",
                             lambda: f"{cls}: ts {list(sub['ts'])} vs {want_ts}")
                     last_at: Dict[int, float] = {}
                     for ts, v in zip(sub["ts"], sub["memory_bw_gbps"]):
                         require(float(v) >= -1e-9, "bw:non_negative", lambda: f"{cls}\n{sub.to_string()}")
-                        last_at[int(ts)] = float(v)
-                        series_b[rank].append((int(ts) + min_ts, cls, float(v)))
+                        last_at[num(ts)] = float(v)
+                        series_b[rank].append((num(ts) + min_ts, cls, float(v)))
                     for ts, v in last_at.items():
                         t_abs = ts + min_ts
                         want = math.fsum(c[2] for c in copies if c[0] <= t_abs < c[1])
@@ -166,7 +167,7 @@ def check(case: Dict[str, Any]) -> CaseInfo:
                         classes.append("zero_length_copy")
                     if any(a is not b and a[0] < b[1] and b[0] < a[1] for a in copies for b in copies):
                         classes.append("overlapping_copies")
-                    named = [(r.ts, r.ts + max(r.dur, 1), r.name) for r in rows if r.stream != -1 and vocab.kernel_type(r.name) == vocab.MEMORY
+                    named = [(r.ts, r.ts + (r.dur if r.dur > 0 else 1), r.name) for r in rows if r.stream != -1 and vocab.kernel_type(r.name) == vocab.MEMORY
                              and vocab.MEMCPY_CLASS[r.name] == cls]
                     if any(a[2] != b[2] and a[0] < b[1] and b[0] < a[1] for a in named for b in named):
                         classes.append("overlapping_copies_same_type_different_names")
@@ -193,8 +194,8 @@ def check(case: Dict[str, Any]) -> CaseInfo:
             n = len(rd["events"])
             added = data["traceEvents"][n:]
             require(all(e.get("ph") == "C" for e in added), "file:only_counters_appended", lambda: str(added[:3]))
-            got_q = [(int(e["ts"]), int(e["id"]), int(e["args"]["Queue Length"])) for e in added if e["name"] == "Queue Length"]
-            got_b = [(int(e["ts"]), e["name"], float(e["args"]["Memcpy BW"])) for e in added if e["name"] != "Queue Length"]
+            got_q = [(num(e["ts"]), int(e["id"]), int(e["args"]["Queue Length"])) for e in added if e["name"] == "Queue Length"]
+            got_b = [(num(e["ts"]), e["name"], float(e["args"]["Memcpy BW"])) for e in added if e["name"] != "Queue Length"]
             # the order across streams / copy types is not prescribed: compare per series, in order
             for key in sorted({x[1] for x in got_q} | {x[1] for x in exp_q}):
                 gq, eq = [x for x in got_q if x[1] == key], [x for x in exp_q if x[1] == key]
@@ -211,7 +212,7 @@ def check(case: Dict[str, Any]) -> CaseInfo:
 
 @st.composite
 def c14_case(draw):
-    o = Opts(steps=[0, 1], w_launch=8, w_sync=1, w_op=3, max_top=5, streams=3, second_thread=False, memcpy_weight=6, early_kernels=True,
+    o = Opts(unrounded=True, steps=[0, 1], w_launch=8, w_sync=1, w_op=3, max_top=5, streams=3, second_thread=False, memcpy_weight=6, early_kernels=True,
              kdurs=[1, 2, 4, 7, 12, 20], memcpy_names=[n for n in vocab.MEMCPY_KERNELS if "HtoD" in n] + vocab.MEMCPY_KERNELS[:1])
     case = draw(sim_case(o, max_ranks=2))
     all_ranks = [r["rank"] for r in case["ranks"]]
